@@ -428,3 +428,4 @@ negative_comp!(pslow_negative_comp_f32_k1, f32, F32, 1, 24, -60, -1, false);
 negative_comp!(pslow_negative_comp_f64_k1_tie, f64, F64, 1, 63, -3, 0, true);
 negative_comp!(pslow_negative_comp_f64_k3_tie, f64, F64, 3, 63, -3, 0, true);
 negative_comp!(pslow_negative_comp_f32_k2_tie, f32, F32, 2, 40, -6, 0, true);
+negative_comp!(pslow_negative_comp_f32_k1_tie, f32, F32, 1, 30, -3, 0, true);
